@@ -330,6 +330,10 @@ func (g *genState) compatible(p Label, structForm bool) Label {
 	if IsIface(p.Type) {
 		im := Implementors(p.Type)
 		s = Label{Type: im[r.Intn(len(im))]}
+		if p.Name != "" && p.Sub == "" && structForm && r.Chance(1, 3) {
+			s.Name = p.Name // a same-named value of an implementing type
+			return s
+		}
 		if !structForm || r.Chance(1, 2) {
 			return s
 		}
